@@ -299,10 +299,10 @@ func (s *section) alphabet(f *field) []value {
 			add(value{"enum:freespace", "freespace", "str", true}, value{"enum:reposize", "reposize", "str", true}, value{"enum:bogus", "bogus", "str", false})
 		case kPath:
 			if strings.Contains(f.key(), "cert") {
-				add(value{"path:tls-cert", mk.certFile, "str", true})
+				add(value{"path:tls-cert", mk.certFile, "str", true}, value{"path:tls-cert-relative", "tls/cert.pem", "str", true})
 			}
 			if strings.Contains(f.key(), "key") {
-				add(value{"path:tls-key", mk.keyFile, "str", true})
+				add(value{"path:tls-key", mk.keyFile, "str", true}, value{"path:tls-key-relative", "tls/key.pem", "str", true})
 			}
 		}
 	case kInt:
